@@ -697,6 +697,9 @@ Proof.
     exists a1. split; [|exact B]. apply in_map_iff. exists (a1, r). split; [reflexivity|exact A].
   - (* IfErr *)
     rewrite <- (g_status a s HG). destruct (astatus a); [exact (IHp2 a L s HA HG)|exact (IHp1 a L s HA HG)].
+  - (* Forget *)
+    inv_some. eexists. split; [left; reflexivity|].
+    destruct HG as [H1 H2 H3 H4 H5 H6 H7 H8 H9 H10 H11 H12 H13]. constructor; simp_acc; try assumption; reflexivity.
   - (* Star *)
     destruct (star_fix fuel (aexec fuel canfail p) [a]) as [[St R]|] eqn:E1; [|discriminate]. inv_some.
     destruct (star_fix_spec _ _ _ _ _ E1) as [Hin Hc].
@@ -765,16 +768,35 @@ Proof.
   - destruct H as [i [A B]]. rewrite A. rewrite (proj2 (mem_nat_false i (live s)) B). reflexivity.
 Qed.
 
-(* after ANY failure pattern in [first], running [again] with memory available ends in the expected abstract state *)
-Theorem run_reusable : forall fuel first again expect, areusable fuel first again ainit expect = true ->
+(* after ANY failure pattern in [first], running [again] with memory available ends in a state described by P *)
+Theorem run_reusable : forall fuel first again P, areusable fuel first again ainit P = true ->
   forall o1 o2, (forall k, fails o2 k = false) ->
-  G expect (fst (run o2 again (fst (run o1 first init_state)))).
+  exists a', G a' (fst (run o2 again (fst (run o1 first init_state)))) /\ P a' = true.
 Proof.
-  intros fuel first again expect H o1 o2 Hnf. unfold areusable in H.
+  intros fuel first again P H o1 o2 Hnf. unfold areusable in H.
   destruct (aexec fuel true first ainit) as [L|] eqn:E; [|discriminate].
   destruct (aexec_sound fuel true o1 (fun H => False_ind _ (Bool.diff_true_false H)) first ainit L init_state E G_init) as [a1 [A B]].
   rewrite forallb_forall in H. specialize (H _ A). cbn in H. unfold all_leaves in H.
   destruct (aexec fuel false again a1) as [L2|] eqn:E2; [|discriminate].
   destruct (aexec_sound fuel false o2 (fun _ => Hnf) again a1 L2 _ E2 B) as [a2 [C D]].
-  rewrite forallb_forall in H. specialize (H _ C). cbn in H. apply astate_eqb_eq in H. subst a2. exact D.
+  rewrite forallb_forall in H. specialize (H _ C). cbn in H. exists a2. split; assumption.
+Qed.
+
+(* closed sets of abstract states *)
+Theorem closed_with_sound : forall fuel St P p, closed_with fuel St P p = true ->
+  forall a s o, In a St -> G a s -> exists a', In a' St /\ P a' = true /\ G a' (fst (run o p s)).
+Proof.
+  intros fuel St P p H a s o Ha HG. unfold closed_with in H. rewrite forallb_forall in H. specialize (H a Ha).
+  unfold all_leaves in H. destruct (aexec fuel true p a) as [L|] eqn:E; [|discriminate].
+  destruct (aexec_sound fuel true o (fun H => False_ind _ (Bool.diff_true_false H)) p a L s E HG) as [a' [A B]].
+  rewrite forallb_forall in H. specialize (H _ A). cbn in H. apply andb_true_iff in H. destruct H as [H1 H2].
+  exists a'. split; [apply amem_In; exact H1|]. split; assumption.
+Qed.
+Theorem closed_under_sound : forall fuel St p, closed_under fuel St p = true ->
+  forall a s o, In a St -> G a s -> exists a', In a' St /\ G a' (fst (run o p s)).
+Proof.
+  intros fuel St p H a s o Ha HG. unfold closed_under in H. rewrite forallb_forall in H. specialize (H a Ha).
+  unfold all_leaves in H. destruct (aexec fuel true p a) as [L|] eqn:E; [|discriminate].
+  destruct (aexec_sound fuel true o (fun H => False_ind _ (Bool.diff_true_false H)) p a L s E HG) as [a' [A B]].
+  rewrite forallb_forall in H. specialize (H _ A). cbn in H. exists a'. split; [apply amem_In; exact H|exact B].
 Qed.
